@@ -182,6 +182,9 @@ func (isolateComp) Exec(op string) (string, string, string, bool) {
 	if len(f) != 2 {
 		return "bad-op", "", "bad", false
 	}
+	if f[1] == "burstidle" {
+		return burstIdle(f[0])
+	}
 	chans := map[string]string{"echo": "echo"}
 	if f[1] == "stalltarget" {
 		chans["sink"] = "unix-noread"
@@ -302,11 +305,93 @@ func (isolateComp) Exec(op string) (string, string, string, bool) {
 	return "ok", "", f[0] + " " + f[1], true
 }
 
+// `isolate <carrier> burstidle`: six client sessions on one server endpoint; on each, 32 logical connections are opened
+// at the same moment and prove they exist; then everything stays idle for 23 s (longer than any handshake or selection
+// time-out of the implementation) and every connection must still echo: nothing that is armed while a connection is
+// being set up may fire later on the session or on its neighbours.
+func burstIdle(carrier string) (string, string, string, bool) {
+	rig, err := NewRig(RigOpts{Carrier: carrier, Insecure: true})
+	if err != nil {
+		return "fail:rig", err.Error(), "fail", false
+	}
+	defer rig.Close()
+	dials := []func(string) (net.Conn, error){rig.Dial}
+	for i := 0; i < 5; i++ {
+		d, cl, err := rig.SecondClient()
+		if err != nil {
+			return "fail:rig", err.Error(), "fail", false
+		}
+		defer cl()
+		dials = append(dials, d)
+	}
+	const per = 32
+	dl := 10 * time.Second
+	conns := make([]net.Conn, len(dials)*per)
+	errs := make([]error, len(conns))
+	for si, dial := range dials {
+		// establish the session first, so that the burst is a burst of logical connections only
+		c0, err := dial("echo")
+		if err != nil {
+			return "fail", "session " + fmt.Sprint(si) + ": " + err.Error(), carrier, false
+		}
+		if err := echoAgain(c0, 8, uint64(si), dl); err != nil {
+			c0.Close()
+			return "fail", "session " + fmt.Sprint(si) + ": " + err.Error(), carrier, false
+		}
+		c0.Close()
+		var wg sync.WaitGroup
+		start := make(chan struct{})
+		for k := 0; k < per; k++ {
+			wg.Add(1)
+			go func(idx int) {
+				defer wg.Done()
+				<-start
+				c, err := dial("echo")
+				if err == nil {
+					err = echoAgain(c, 16, uint64(idx), dl)
+				}
+				conns[idx], errs[idx] = c, err
+			}(si*per + k)
+		}
+		close(start)
+		wg.Wait()
+	}
+	defer func() {
+		for _, c := range conns {
+			if c != nil {
+				c.Close()
+			}
+		}
+	}()
+	for i, e := range errs {
+		if e != nil {
+			return "fail", fmt.Sprintf("connection %d of the burst: %v", i, e), carrier + " burstidle", false
+		}
+	}
+	time.Sleep(23 * time.Second)
+	dropped, sess := 0, map[int]bool{}
+	var first error
+	for i, c := range conns {
+		if err := echoAgain(c, 16, uint64(1000+i), 5*time.Second); err != nil {
+			dropped++
+			sess[i/per] = true
+			if first == nil {
+				first = err
+			}
+		}
+	}
+	if dropped > 0 {
+		return "fail", fmt.Sprintf("%d of %d idle logical connections (on %d of %d physical sessions) were dropped 23s after they had been opened at the same moment, although nobody closed them: %v", dropped, len(conns), len(sess), len(dials), first), carrier + " burstidle", false
+	}
+	return "ok", "", carrier + " burstidle", true
+}
+
 func (isolateComp) Gen(r *Rand, tier string, emit func(string)) {
 	for _, e := range []string{"clean", "rst", "flood", "stalltarget", "refused", "refusedmid"} {
 		emit("tcp " + e)
 	}
 	emit("ws refusedmid")
+	emit("tcp burstidle")
 	emit("ws stalltarget")
 	emit("ws rst")
 	emit("stdio rst")
